@@ -321,4 +321,154 @@ example (h : ℝ) (hh : 0 < h) :
   sphLaplace_conservative_even_smooth_uniform (fun _ => Real.cos) Real.contDiff_cos Real.cos_neg 1
     (fun y => Real.abs_iteratedDeriv_cos_le_one 4 y) (-(h/2)) h hh 1 (h/2) (by push_cast; ring) le_rfl
 
+/-- a point of the open interval between `x` and `x + t` is within `|t|` of `x` -/
+theorem abs_sub_le_of_mem_uIoo (x t ξ : ℝ) (hξ : ξ ∈ Set.uIoo x (x + t)) : |ξ - x| ≤ |t| := by
+  rcases le_total 0 t with h0 | h0
+  · rw [Set.uIoo_of_le (by linarith)] at hξ
+    rw [abs_of_nonneg h0, abs_of_nonneg (by linarith [hξ.1])]; linarith [hξ.2]
+  · rw [Set.uIoo_of_ge (by linarith)] at hξ
+    rw [abs_of_nonpos h0, abs_of_nonpos (by linarith [hξ.2])]; linarith [hξ.1]
+
+/-- the second difference quotient is bounded by the LOCAL supremum of the second derivative -/
+theorem d2_fun_bounded_local (f : ℝ → ℝ) (hf : ContDiff ℝ 2 f) (M : ℝ) (x h : ℝ) (hh : h ≠ 0)
+    (hM : ∀ y, |y - x| ≤ |h| → |iteratedDeriv 2 f y| ≤ M) :
+    |(f (x + h) - 2 * f x + f (x - h)) / (h * h)| ≤ M := by
+  obtain ⟨ξ1, m1, e1⟩ := taylor1 f hf x h hh
+  obtain ⟨ξ2, m2, e2⟩ := taylor1 f hf x (-h) (neg_ne_zero.mpr hh)
+  have e2' : f (x - h) = f x - iteratedDeriv 1 f x * h + iteratedDeriv 2 f ξ2 * h^2 / 2 := by
+    have : x + -h = x - h := by ring
+    rw [this] at e2; rw [e2]; ring
+  have key : (f (x + h) - 2 * f x + f (x - h)) / (h * h)
+      = (iteratedDeriv 2 f ξ1 + iteratedDeriv 2 f ξ2) / 2 := by
+    rw [e1, e2']; field_simp; ring
+  rw [key, abs_div, abs_of_pos (by norm_num : (0:ℝ) < 2)]
+  have := abs_add_le_of (hM ξ1 (abs_sub_le_of_mem_uIoo x h ξ1 m1))
+    (hM ξ2 (by have := abs_sub_le_of_mem_uIoo x (-h) ξ2 m2; rwa [abs_neg] at this))
+  rw [div_le_iff₀ (by norm_num)]; linarith
+
+/-- for an odd C3 function `|v'(ρ) - v(ρ)/ρ| ≤ M3 ρ²` (`ρ > 0`) -/
+theorem odd_d1_sub_div_bound (v : ℝ → ℝ) (hv : ContDiff ℝ 3 v) (hodd : ∀ x, v (-x) = -v x) (M3 : ℝ)
+    (hM3 : ∀ y, |iteratedDeriv 3 v y| ≤ M3) (ρ : ℝ) (hρ : 0 < ρ) :
+    |iteratedDeriv 1 v ρ - v ρ / ρ| ≤ M3 * ρ^2 := by
+  have hM0 : 0 ≤ M3 := le_trans (abs_nonneg _) (hM3 0)
+  have h2 : ∀ y, |iteratedDeriv 2 v y| ≤ M3 * |y| :=
+    iteratedDeriv_bound_of_zero v 2 3 hv (by norm_num) (odd_iteratedDeriv_even_zero v hodd 2 (by decide)) M3 hM3
+  have h00 : v 0 = 0 := by have := hodd 0; simp at this; linarith
+  let g : ℝ → ℝ := fun y => y * iteratedDeriv 1 v y - v y
+  have hg : ∀ y, HasDerivAt g (y * iteratedDeriv 2 v y) y := by
+    intro y
+    have h2' : HasDerivAt (iteratedDeriv 1 v) (iteratedDeriv 2 v y) y := hasDerivAt_iteratedDeriv v 1 3 hv (by norm_num) y
+    have h1' : HasDerivAt v (iteratedDeriv 1 v y) y := by
+      have := hasDerivAt_iteratedDeriv v 0 3 hv (by norm_num) y
+      simpa [iteratedDeriv_zero] using this
+    have h12 : HasDerivAt g (1 * iteratedDeriv 1 v y + y * iteratedDeriv 2 v y - iteratedDeriv 1 v y) y :=
+      ((hasDerivAt_id y).mul h2').sub h1'
+    exact h12.congr_deriv (by ring)
+  have := Convex.norm_image_sub_le_of_norm_hasDerivWithin_le (f := g) (f' := fun y => y * iteratedDeriv 2 v y)
+    (s := Set.Icc 0 ρ) (C := M3 * ρ^2)
+    (fun z _ => (hg z).hasDerivWithinAt)
+    (fun z hz => by
+      rw [Real.norm_eq_abs, abs_mul]
+      have hz0 : |z| = z := abs_of_nonneg hz.1
+      have := h2 z
+      rw [hz0] at this ⊢
+      calc z * |iteratedDeriv 2 v z| ≤ z * (M3 * z) := mul_le_mul_of_nonneg_left this hz.1
+        _ = M3 * z^2 := by ring
+        _ ≤ M3 * ρ^2 := by
+          apply mul_le_mul_of_nonneg_left _ hM0
+          exact pow_le_pow_left₀ hz.1 hz.2 2)
+    (convex_Icc 0 ρ) (Set.left_mem_Icc.mpr hρ.le) (Set.right_mem_Icc.mpr hρ.le)
+  have hg0 : g 0 = 0 := by simp only [g]; rw [h00]; ring
+  rw [hg0, sub_zero, Real.norm_eq_abs, Real.norm_eq_abs, sub_zero, abs_of_pos hρ] at this
+  have e : iteratedDeriv 1 v ρ - v ρ / ρ = g ρ / ρ := by
+    simp only [g]; field_simp
+  rw [e, abs_div, abs_of_pos hρ, div_le_iff₀ hρ]
+  exact this
+
+/-- **conservative (the default) spherical divergence, ALL C3 radial components odd in `r`** (vector fields regular at
+the origin), **every cell of a full sphere including the innermost** (`ρ ≥ h/2`): error at most `(11/6) M3 h²` -/
+theorem sphDivergence_conservative_odd_smooth_uniform (F : List Int → ℝ → ℝ) (hF : ContDiff ℝ 3 (F [0]))
+    (hodd : ∀ x, F [0] (-x) = -F [0] x) (M3 : ℝ) (hM3 : ∀ y, |iteratedDeriv 3 (F [0]) y| ≤ M3) (x0 h : ℝ) (hh : 0 < h)
+    (i : Int) (ρ : ℝ) (hρ : ρ = x0 + (i:ℝ) * h) (hcell : h / 2 ≤ ρ) :
+    |sphDivergence true .central (fun n => x0 + (n:ℝ) * h) h (sampleAx1 F x0 h) i
+        - (iteratedDeriv 1 (F [0]) ρ + 2 * F [0] ρ / ρ)| ≤ 11 / 6 * M3 * h^2 := by
+  have hρpos : 0 < ρ := by linarith
+  have hr : ρ ≠ 0 := hρpos.ne'
+  have hh' : h ≠ 0 := hh.ne'
+  have hM0 : 0 ≤ M3 := le_trans (abs_nonneg _) (hM3 0)
+  have h2 : ∀ y, |iteratedDeriv 2 (F [0]) y| ≤ M3 * |y| :=
+    iteratedDeriv_bound_of_zero (F [0]) 2 3 hF (by norm_num) (odd_iteratedDeriv_even_zero (F [0]) hodd 2 (by decide)) M3 hM3
+  have e0i : x0 + (i:ℝ) * h = ρ := hρ.symm
+  have e1i : x0 + ((i:ℝ) + 1) * h = ρ + h := by rw [hρ]; ring
+  have e2i : x0 + ((i:ℝ) - 1) * h = ρ - h := by rw [hρ]; ring
+  have e3i : x0 + ((i:ℝ) + -1) * h = ρ - h := by rw [hρ]; ring
+  have eV : ((ρ + h / 2) * (ρ + h / 2) * (ρ + h / 2) - (ρ - h / 2) * (ρ - h / 2) * (ρ - h / 2)) / 3
+      = h * (h^2 + 12 * ρ^2) / 12 := by ring
+  have hQ : h^2 + ρ^2 * 12 ≠ 0 := by positivity
+  have hQ' : h^2 + 12 * ρ^2 ≠ 0 := by positivity
+  have hQpos : 0 < h^2 + 12 * ρ^2 := by positivity
+  have split : sphDivergence true .central (fun n => x0 + (n:ℝ) * h) h (sampleAx1 F x0 h) i
+        - (iteratedDeriv 1 (F [0]) ρ + 2 * F [0] ρ / ρ)
+      = ((12 * ρ^2 + 3 * h^2) * ((F [0] (ρ + h) - F [0] (ρ - h)) / (2 * h) - iteratedDeriv 1 (F [0]) ρ) + 6 * (ρ * (h^2 * ((F [0] (ρ + h) - 2 * F [0] ρ + F [0] (ρ - h)) / (h * h)))) + 2 * (h^2 * (iteratedDeriv 1 (F [0]) ρ - F [0] ρ / ρ))) / (h^2 + 12 * ρ^2) := by
+    stencil_split [sphDivergence, sampleAx1_s, sampleAx1_v, sampleAx1_t] [e0i, e1i, e2i, e3i, eV]
+  rw [split, abs_div, abs_of_pos hQpos, div_le_iff₀ hQpos]
+  have hD2 : |(F [0] (ρ + h) - 2 * F [0] ρ + F [0] (ρ - h)) / (h * h)| ≤ 3 * M3 * ρ :=
+    d2_fun_bounded_local (F [0]) (hF.of_le (by norm_num)) (3 * M3 * ρ) ρ h hh' (by
+      intro y hy
+      rw [abs_of_pos hh] at hy
+      have hy' := abs_le.mp hy
+      have : |y| ≤ 3 * ρ := by rw [abs_le]; constructor <;> linarith [hy'.1, hy'.2]
+      calc |iteratedDeriv 2 (F [0]) y| ≤ M3 * |y| := h2 y
+        _ ≤ M3 * (3 * ρ) := mul_le_mul_of_nonneg_left this hM0
+        _ = 3 * M3 * ρ := by ring)
+  have hA := abs_mul_le_of_nonneg (by positivity : (0:ℝ) ≤ 12 * ρ^2 + 3 * h^2) (d1_central_fun_taylor (F [0]) hF M3 hM3 ρ h hh')
+  have hB := abs_mul_le_of_nonneg (by norm_num : (0:ℝ) ≤ 6)
+    (abs_mul_le_of_nonneg hρpos.le (abs_mul_le_of_nonneg (by positivity : (0:ℝ) ≤ h^2) hD2))
+  have hC := abs_mul_le_of_nonneg (by norm_num : (0:ℝ) ≤ 2)
+    (abs_mul_le_of_nonneg (by positivity : (0:ℝ) ≤ h^2) (odd_d1_sub_div_bound (F [0]) hF hodd M3 hM3 ρ hρpos))
+  refine (abs_add_le_of (abs_add_le_of hA hB) hC).trans ?_
+  have p1 : 0 ≤ M3 * h^4 := mul_nonneg hM0 (by positivity)
+  have e : 11 / 6 * M3 * h^2 * (h^2 + 12 * ρ^2)
+      - ((12 * ρ^2 + 3 * h^2) * (M3 * h^2 / 6) + 6 * (ρ * (h^2 * (3 * M3 * ρ))) + 2 * (h^2 * (M3 * ρ^2)))
+      = 4 / 3 * (M3 * h^4) := by ring
+  linarith
+
+/-- non-vacuity: `v_r = sin r` in the innermost cell of a full sphere, every `h > 0` -/
+example (h : ℝ) (hh : 0 < h) :
+    |sphDivergence true .central (fun n => -(h/2) + (n:ℝ) * h) h (sampleAx1 (fun _ => Real.sin) (-(h/2)) h) 1
+        - (iteratedDeriv 1 Real.sin (h/2) + 2 * Real.sin (h/2) / (h/2))| ≤ 11 / 6 * 1 * h^2 :=
+  sphDivergence_conservative_odd_smooth_uniform (fun _ => Real.sin) Real.contDiff_sin Real.sin_neg 1
+    (fun y => Real.abs_iteratedDeriv_sin_le_one 3 y) (-(h/2)) h hh 1 (h/2) (by push_cast; ring) le_rfl
+
+
+/-- **axial component of the cylindrical vector Laplacian, all smooth `v_z` regular at the axis** (C4 along both axes,
+even in `r`), every cell of a full cylinder (`ρ ≥ h/2`): error at most `M4z/12 k² + (7/12) M4r h²` - the documented
+first-order exception does not concern this component -/
+theorem cylVectorLaplace_z_even_smooth_uniform (F : List Int → ℝ → ℝ → ℝ) (hFz : ∀ r, ContDiff ℝ 4 (F [1] r))
+    (hFr : ∀ z, ContDiff ℝ 4 (fun s => F [1] s z)) (heven : ∀ r z, F [1] (-r) z = F [1] r z) (M4z M4r : ℝ)
+    (hM4z : ∀ r z, |iteratedDeriv 4 (F [1] r) z| ≤ M4z)
+    (hM4r : ∀ r z, |iteratedDeriv 4 (fun s => F [1] s z) r| ≤ M4r) (x0 h z0 k : ℝ) (hh : 0 < h)
+    (hk : k ≠ 0) (i j : Int) (ρ ζ : ℝ) (hρ : ρ = x0 + (i:ℝ) * h) (hζ : ζ = z0 + (j:ℝ) * k) (hcell : h / 2 ≤ ρ) :
+    |cylVectorLaplace (fun n => x0 + (n:ℝ) * h) h k (sampleAx2 F x0 h z0 k) 1 i j
+        - (iteratedDeriv 2 (fun s => F [1] s ζ) ρ + iteratedDeriv 1 (fun s => F [1] s ζ) ρ / ρ + iteratedDeriv 2 (F [1] ρ) ζ)|
+      ≤ M4z / 12 * k^2 + 7 / 12 * M4r * h^2 := by
+  have hr : ρ ≠ 0 := by linarith
+  have e0i : x0 + (i:ℝ) * h = ρ := hρ.symm
+  have e1i : x0 + ((i:ℝ) + 1) * h = ρ + h := by rw [hρ]; ring
+  have e2i : x0 + ((i:ℝ) - 1) * h = ρ - h := by rw [hρ]; ring
+  have e3i : x0 + ((i:ℝ) + -1) * h = ρ - h := by rw [hρ]; ring
+  have e0j : z0 + (j:ℝ) * k = ζ := hζ.symm
+  have e1j : z0 + ((j:ℝ) + 1) * k = ζ + k := by rw [hζ]; ring
+  have e2j : z0 + ((j:ℝ) - 1) * k = ζ - k := by rw [hζ]; ring
+  have e3j : z0 + ((j:ℝ) + -1) * k = ζ - k := by rw [hζ]; ring
+  have split : cylVectorLaplace (fun n => x0 + (n:ℝ) * h) h k (sampleAx2 F x0 h z0 k) 1 i j
+        - (iteratedDeriv 2 (fun s => F [1] s ζ) ρ + iteratedDeriv 1 (fun s => F [1] s ζ) ρ / ρ + iteratedDeriv 2 (F [1] ρ) ζ)
+      = (F [1] ρ (ζ + k) - 2 * F [1] ρ ζ + F [1] ρ (ζ - k)) / (k * k) - iteratedDeriv 2 (F [1] ρ) ζ + ((F [1] (ρ + h) ζ - F [1] (ρ - h) ζ) / (2 * h) - iteratedDeriv 1 (fun s => F [1] s ζ) ρ) / ρ + ((F [1] (ρ + h) ζ - 2 * F [1] ρ ζ + F [1] (ρ - h) ζ) / (h * h) - iteratedDeriv 2 (fun s => F [1] s ζ) ρ) := by
+    stencil_split [cylVectorLaplace, sampleAx2_s, sampleAx2_v, sampleAx2_t] [e0i, e1i, e2i, e3i, e0j, e1j, e2j, e3j]
+  rw [split]
+  exact le_trans (abs_add_le_of (abs_add_le_of (d2_fun_taylor (F [1] ρ) (hFz ρ) M4z (hM4z ρ) ζ k hk)
+      (even_d1_error_div_radius (fun s => F [1] s ζ) (hFr ζ) (fun x => heven x ζ) M4r (fun t => hM4r t ζ) ρ h hh hcell))
+      (d2_fun_taylor (fun s => F [1] s ζ) (hFr ζ) M4r (fun t => hM4r t ζ) ρ h hh.ne'))
+    (le_of_eq (by ring))
+
 end PdeVerif.Stencil
